@@ -297,8 +297,13 @@ func ldField(u *ssa.UnOp) *types.Var {
 // verifySigDominates: every success return of Entry.Verify is dominated by the true result of the
 // public-key signature check performed in this call.
 func verifySigDominates(c *Ctx, r *Report, rule string) {
+	sigCheckDominates(c, r, rule, c.P.FuncI("entry", "Entry", "Verify"))
+}
+
+// sigCheckDominates: every success return of verify passed the true result of a crypto signature check made by
+// this very call.
+func sigCheckDominates(c *Ctx, r *Report, rule string, verify *Fn) {
 	p := c.P
-	verify := p.FuncI("entry", "Entry", "Verify")
 	okVars := map[types.Object]bool{}
 	walkNoLit(verify.Body, func(n ast.Node) bool {
 		if as, ok := n.(*ast.AssignStmt); ok && len(as.Rhs) == 1 && len(as.Lhs) == 2 {
@@ -312,7 +317,7 @@ func verifySigDominates(c *Ctx, r *Report, rule string) {
 		}
 		return true
 	})
-	r.Floor(rule, "signature checks in Entry.Verify", len(okVars), 1)
+	r.Floor(rule, "signature checks in "+verify.Name, len(okVars), 1)
 	vf := &Flow{P: p, Fn: verify, Entry: Facts{}}
 	vf.Edge = func(cond ast.Expr, taken bool, f Facts) {
 		for _, a := range splitCond(cond, taken) {
@@ -334,5 +339,5 @@ func verifySigDominates(c *Ctx, r *Report, rule string) {
 				"Verify can return success on a path that does not pass the signature check of this call (a cached or short-circuited verdict): an entry altered after an earlier successful verification is accepted")
 		}
 	})
-	r.Floor(rule, "success returns of Entry.Verify", nsucc, 1)
+	r.Floor(rule, "success returns of "+verify.Name, nsucc, 1)
 }
